@@ -12,19 +12,6 @@ def isErrConn : Res → Bool
   | .errConn _ => true
   | _ => false
 
-/-- the calls of the receive API -/
-inductive RCall where
-  | head (role : Role)
-  | data
-  | trailers
-deriving Repr, DecidableEq
-
-/-- one poll of a call -/
-def RCall.poll (H : Hdr) : RCall → St FSt → Res × St FSt
-  | .head role => pollHead role fsSrc H
-  | .data => fun x => pollRecvData fsSrc (fsFuel x.src) x
-  | .trailers => pollRecvTrailers fsSrc H
-
 section cell
 variable {σ : Type}
 
